@@ -94,6 +94,7 @@ def get_cmd(rng, o, g="?", k="?", kd=None):
         if kd == "string": d = "s:" + enc(rng.choice([b"dflt", b"", None]))
         elif kd == "bool": d = "b:%d" % rng.randrange(2)
         elif kd in ("int", "int64", "uint", "uint64"): d = "i:%d" % rand_int(rng, kd)
+        elif kd in ("float", "double"): d = "f:" + enc(rng.choice([b"1.5", b"-0.1", b"3.4028235e38", b"1e-320", b"0", b"16777217", b"1e400"]))
     return "get %d %s %s %s %s" % (o, kd, enc(g), enc(k), d)
 
 def start_cmd(rng, o):
